@@ -61,8 +61,9 @@ STICKY_CONTEXT_VARS = {"subclass_arg_parser", "dump_kwargs", "parse_kwargs"}
 
 def operations(profile="full"):
     """The operation x argument-form alphabet.  profile "full": every variant; "core": one variant per code path
-    (used by the quick tier on the generated container-nest family, where the parser has no classes or groups)."""
-    full = profile == "full"
+    (used by the quick tier on the generated container-nest family, where the parser has no classes or groups);
+    "full+" (thorough tier): full, and the defaults=False variant of every parse entry point."""
+    full = profile in ("full", "full+")
     ops = [
         ["parse_args", "argv"],
         ["parse_args", "argv+namespace"],
@@ -81,17 +82,19 @@ def operations(profile="full"):
     ]
     # The same parse calls with the parser's defaults switched off (public keyword defaults=False): the call then starts
     # from an EMPTY configuration, and an object that the caller supplies as base (namespace=, cfg_base=) is the only
-    # thing underneath the new values.  One variant per parse entry point (the argument forms of one entry point share
-    # the code that looks at the switch) and both forms with a caller-supplied base; core: the latter only.
+    # thing underneath the new values.  Every profile: both forms with a caller-supplied base.  full+: also one variant
+    # per parse entry point (the argument forms of one entry point share the code that looks at the switch; their
+    # arguments are immutable or copied on entry, so only defaults / process state can be affected there).
     nodef = {"defaults": False}
     ops.append(["parse_args", "argv+namespace", nodef])
     ops.append(["parse_object", "dict+cfg_base", nodef])
-    if full:
+    if profile == "full+":
         ops.append(["parse_args", "argv", nodef])
         ops.append(["parse_object", "dict", nodef])
         ops.append(["parse_string", nodef])
         ops.append(["parse_env", "mapping", nodef])
         ops.append(["parse_path", nodef])
+    if full:
         ops.append(["get_defaults", True])
         ops.append(["print_config"])
         for name in ("dump", "save"):
@@ -755,16 +758,16 @@ def items_for(tier):
                 add(f"gen:{SH.type_name(t)}:{dform}", "core", bad_for=(0,))
     else:
         for name in SH.NAMED:
-            add(name, "full", values=(SH.BAD, BAD2))
+            add(name, "full+", values=(SH.BAD, BAD2))
             if name not in QUICK_CORE_SHAPES:
-                add(name, "full", warm=True)
+                add(name, "full+", warm=True)
             if name not in NO_PAIRS_SHAPES:
                 add(name, "core", pairs=True)
         for t in SH.gen_types(3):
             depth = SH.type_depth(t)
             if depth <= 2:
                 for dform in ("none", "final", "raw"):
-                    add(f"gen:{SH.type_name(t)}:{dform}", "full")
+                    add(f"gen:{SH.type_name(t)}:{dform}", "full+")
             else:
                 for dform in ("final", "raw"):
                     add(f"gen:{SH.type_name(t)}:{dform}", "core", bad_for=(0,))
@@ -785,7 +788,7 @@ def explore(ctx):
             ctx.count(k, v)
         for sig, case, detail in out["devs"]:
             ctx.deviation(sig, case, detail)
-    ops = operations("full")
+    ops = operations("full" if ctx.quick else "full+")
     for it in (items[0], items[len(items) // 2], items[-1]):
         ctx.sample({"shape": it[0], "config": it[1], "bad": it[2], "op": ops[4], "warm": it[4]})
     c = ctx.counters
